@@ -237,12 +237,16 @@ def c17(rep, W, rule="C17", sections=None):
         fl = dict(term[2])
         for fname, (aid, getter) in want_ids.items():
             t = fl.get(fname, ("unknown",))
-            gets = list(set(x for x in deep_terms(W, ab, t) if x[0] == "call" and x[1].startswith("clap_builder::parser::matches::arg_matches::ArgMatches::get_")))
-            okf = len(gets) == 1 and gets[0][1].endswith("::" + getter) and H.const_str(gets[0][3][1]) == aid
+            # (get_one / get_many borrow the parsed value, remove_one / remove_many take it out of the owned ArgMatches: same value)
+            AM = "clap_builder::parser::matches::arg_matches::ArgMatches::"
+            gets = list(set(x for x in deep_terms(W, ab, t) if x[0] == "call" and x[1].startswith(AM) and x[1][len(AM):].split("::")[0] in
+                            ("get_one", "get_many", "remove_one", "remove_many", "get_raw", "get_occurrences", "get_flag", "get_count", "try_get_one", "try_get_many")))
+            same = {"get_one": ("get_one", "remove_one"), "get_many": ("get_many", "remove_many")}[getter]
+            okf = len(gets) == 1 and gets[0][1].split("::")[-1] in same and H.const_str(gets[0][3][1]) == aid
             rep.ob(rule + ".ARGS", ("ServerArgs::new", fname), okf,
                    "ServerArgs.%s is read from %s; must be %s(\"%s\")" % (fname, [(x[1].split("::")[-1], H.const_str(x[3][1])) for x in gets], getter, aid), where(ab))
         al = fl.get("client_id_allowlist", ("unknown",))
-        gm = [x for x in deep_terms(W, ab, al) if x[0] == "call" and x[1].endswith("ArgMatches::get_many")]
+        gm = [x for x in deep_terms(W, ab, al) if x[0] == "call" and (x[1].endswith("ArgMatches::get_many") or x[1].endswith("ArgMatches::remove_many"))]
         okn = len(set(gm)) == 1 and S.option_map_of(W.gea(ab), W.prov(ab), al, gm[0]) is not None
         rep.ob(rule + ".ARGS", ("ServerArgs::new", "absent-list-is-None"), okn,
                "client_id_allowlist is %s; an absent option must stay None (= allow everybody), e.g. not unwrap_or_default (= allow nobody)" % P.show(al)[:120], where(ab))
